@@ -65,6 +65,7 @@ type epochMark struct {
 }
 
 type deferred struct {
+	guard string // non-empty: registered only on the paths where this condition holds (after a merge of states)
 	call *ast.CallExpr
 	fn   Value
 	args []Value
